@@ -3,6 +3,11 @@ from __future__ import annotations
 
 
 def execute(scn: dict, decisions=None, verbose=False, lenient=False):
+    # A scenario is executed in its JSON form, whatever produced it: a
+    # replay file stores lists where a generator made tuples, and pickled
+    # payload sizes (part of the trace digest) would differ otherwise.
+    import json
+    scn = json.loads(json.dumps(scn))
     eng = scn.get('engine', 'simrt')
     if eng == 'simrt':
         from dst import simrt
